@@ -127,6 +127,9 @@ class Algebra:
     # This simplify func is applied to every component after a symbolic expression is called, to simplify and filter by.
     simp_func: Callable = field(default=lambda v: v if not isinstance(v, sympy.Expr) else sympy.simplify(sympy.expand(v)), repr=False, compare=False)
 
+    # Hashable copy of the signature: algebras whose generators have a different metric are not equal.
+    _signature: tuple = field(init=False, repr=False, default=None)
+
     signs: dict = field(init=False, repr=False, compare=False)
     blades: "BladeDict" = field(init=False, repr=False, compare=False)
     pss: object = field(init=False, repr=False, compare=False)
@@ -143,6 +146,8 @@ class Algebra:
                 self.signature = np.array([0] * self.r + [1] * self.p + [-1] * self.q)
             else:
                 self.signature = np.array([1] * self.p + [-1] * self.q + [0] * self.r)
+
+        self._signature = tuple(int(s) for s in self.signature)
 
         if self.start_index is None:
             self.start_index = 0 if self.r == 1 else 1
